@@ -14,7 +14,8 @@ RULE = ("a case = one generated Var tree with its ops: enc (Json::encode / Xdl::
         "canonical dump), file (write to a file, compare the file with encode(), read it back); trees are type-directed (depth <= 8): "
         "null/undefined/bool, ints incl. INT_MIN/INT_MAX and the 9/10-character split, doubles from bit patterns (denormals, +-DBL_MAX, -0, "
         "powers of two +-1ulp, integral values, NaN/inf), floats from bit patterns, strings/keys with control characters, quotes, backslashes, "
-        "'/', 0x7f, UTF-8 and raw high bytes, arrays around the pretty-printer thresholds (10, 16, 100 chars), objects incl. $type (every run: $type holding each of ~60 values - class names, strings "
+        "'/', '<', '>', '#', 0x7f, UTF-8 and raw high bytes (every run: all ordered pairs of the ~33 bytes/units the encoder or decoder treats specially, "
+        "as values and as keys, and ~45 comment-/markup-/escape-like texts such as //, /* */, </*y*/, <b>bold</b> inside strings and keys), arrays around the pretty-printer thresholds (10, 16, 100 chars), objects incl. $type (every run: $type holding each of ~60 values - class names, strings "
         "that are not class names, reserved words, non-strings - alone, among other members, nested); file "
         "sizes slid across the 16382-byte read chunk and the 16000-byte flush threshold; non-trivial = distinct case with a non-scalar tree "
         "or a non-trivial scalar")
@@ -116,15 +117,30 @@ def gen_float(rng):
     return ("F", rng.getrandbits(32))
 
 
+# every byte that XdlEncoder::new_string or a state of XdlParser::parse treats specially (quotes, the escape character, the comment
+# openers '/', '*', '#', the markup bytes '<' '>', structure bytes, separators, white space, control bytes, DEL), the letters that
+# follow a backslash in an escape, and multi-byte UTF-8 units; RAW_UNITS are not UTF-8 (no python-json opinion, K still compares)
+SPECIAL_UNITS = [bytes([c]) for c in b'"\\/<>*#{}[],:=\'\n\t\r\x08\x0c\x01\x1f \x7fnu$-'] + \
+                ["\u00e9".encode("utf-8"), "\u20ac".encode("utf-8"), "\U0001f600".encode("utf-8")]
+RAW_UNITS = [b"\x80", b"\xff"]
+# texts that look like comments, markup or escapes when they stand inside a string or key
+COMMENTISH = [b"//", b"/*", b"*/", b"/**/", b"/* */", b"/*y*/", b"</", b"</*y*/", b"x</*y*/nz", b"<b>bold</b>", b"</script>", b"<//", b"</n", b"</u0041",
+              b"a//b\nc", b"a/*b", b"#c", b"#c\nd", b"<!-- -->", b"<?x?>", b"\\/", b"\\//", b"<\\/", b"\\n", b"\\u0041", b"\\", b'"//"', b'"/*"*/',
+              b"http://a/b?c=d&e=</f>", b"a/b", b"/", b"<", b"<<//>>", b"*/ /*", b"/ /", b"/\n/", b"</\n", b"//\n", b"'//'", b"=/", b":/", b",/", b"{/}", b"[/]"]
+
+
 def gen_bytes(rng, maxlen, json_safe):
-    """NUL-free byte string; >= 30% contain control characters, quotes, backslashes, '/', 0x7f or non-ASCII"""
+    """NUL-free byte string; >= 30% contain control characters, quotes, backslashes, '/', '<', '>', '#', 0x7f or non-ASCII, some hold
+    a comment-/markup-like text (COMMENTISH)"""
     n = rng.randrange(0, maxlen)
     out = b""
     spicy = rng.random() < 0.5
     for _ in range(n):
         r = rng.random()
-        if spicy and r < 0.35:
-            out += bytes([rng.choice([1, 2, 7, 8, 9, 10, 11, 12, 13, 27, 31, 34, 92, 47, 0x7f, 39, 32, 58, 44, 61, 123, 125, 91, 93, 42])])
+        if spicy and r < 0.3:
+            out += bytes([rng.choice([1, 2, 7, 8, 9, 10, 11, 12, 13, 27, 31, 34, 92, 47, 0x7f, 39, 32, 58, 44, 61, 123, 125, 91, 93, 42, 60, 62, 35, 47, 60])])
+        elif spicy and r < 0.35:
+            out += rng.choice(COMMENTISH)
         elif spicy and r < 0.55:
             out += chr(rng.choice([0xe9, 0x7ff, 0x800, 0x20ac, 0xd7ff, 0xe000, 0xffff, 0x10000, 0x1f600, 0x10ffff, 0x80])).encode("utf-8")
         elif spicy and r < 0.6 and not json_safe:
@@ -512,6 +528,21 @@ def gen(rng, tier):
         s = bytes([c])
         ops = ["enc 8 s%s" % hexs(s), "rt 8 s%s" % hexs(s), "rt 0 s%s" % hexs(s), "rt 9 o1 %s i1" % hexs(s + b"k"), "rt 8 a2 s%s s%s" % (hexs(s + s), hexs(b"x" + s))]
         cases.append(ops)
+    # all ordered PAIRS of special units (what one byte means to the encoder/decoder may depend on its neighbour: "</", "\\/", "//", "/*",
+    # "*/", "\\n", "\\u", quote after backslash ...) as string values (JSON and XDL) and as keys, bare and embedded
+    units = SPECIAL_UNITS + RAW_UNITS
+    for a in units:
+        for b in units:
+            ab = a + b
+            t1 = " ".join(tokens(("a", [("s", ab), ("s", b"x" + ab + b"y")])))
+            t2 = " ".join(tokens(("o", [(ab, ("s", b + a)), (b"k" + ab, ("i", 1))])))
+            cases.append(["enc 8 " + t1, "rt 8 " + t1, "rt 0 " + t1, "enc 9 " + t2, "rt 9 " + t2])
+    # comment-, markup- and escape-like texts inside strings and keys: every layout, encode bytes, round trip, files
+    for i, c in enumerate(COMMENTISH):
+        t1 = " ".join(tokens(("a", [("s", c), ("s", c + c), ("o", [(b"k", ("s", b"a" + c + b"z"))])])))
+        t2 = " ".join(tokens(("o", [(c, ("s", c)), (b"q" + c + b"r", ("a", [("s", c)]))])))
+        cases.append(["enc 8 " + t1, "enc 9 " + t1, "enc 0 " + t1] + ["rt %d %s" % (m, t1) for m in (8, 9, 0, 1)] + ["file %d %s" % ((8, 9, 0, 1)[i % 4], t1)] +
+                     ["enc 8 " + t2, "rt 8 " + t2, "rt 9 " + t2, "file %d %s" % ((9, 8)[i % 2], t2)])
     # type-directed trees
     for i in range((1000 if quick else 80000)):
         opts = {"utf8": rng.random() < 0.8, "ident_keys": rng.random() < 0.5, "reals": rng.random() < 0.85}
@@ -576,6 +607,7 @@ def distribution(cases):
     kinds = {}
     spicy = 0
     strings = 0
+    markup = 0
     for c in cases:
         for l in c:
             t = l.split()
@@ -604,13 +636,16 @@ def distribution(cases):
                 strings += 1
                 if any(ch < 0x20 or ch in (34, 92, 47, 0x7f) or ch >= 0x80 for ch in b):
                     spicy += 1
+                if b"</" in b or b"//" in b or b"/*" in b or b"\\/" in b:
+                    markup += 1
     return {"ops_by_kind": ops, "ops_by_mode": modes, "node_kinds(first op of each case)": kinds,
-            "strings_and_keys_with_control/quote/backslash/slash/del/high_bytes": "%d of %d" % (spicy, strings)}
+            "strings_and_keys_with_control/quote/backslash/slash/del/high_bytes": "%d of %d" % (spicy, strings),
+            "strings_and_keys_holding_</_or_//_or_/*_or_\\/": markup}
 
 
-EXHAUSTIVE = {"quick": "all 255 single-byte strings/keys; every pad length so that the 16382-byte read boundary and the 16000-byte flush "
+EXHAUSTIVE = {"quick": "all 255 single-byte strings/keys; all ordered pairs of the special units (SPECIAL_UNITS + RAW_UNITS) as string values and keys; every pad length so that the 16382-byte read boundary and the 16000-byte flush "
                        "threshold fall on every byte of a probe document",
-              "thorough": "all 255 single-byte strings/keys; every pad length across 150 bytes around 16382*k (k=1..4) and 16000"}
+              "thorough": "all 255 single-byte strings/keys; all ordered pairs of the special units as string values and keys; every pad length across 150 bytes around 16382*k (k=1..4) and 16000"}
 
 LEVEL_TEXT = ("Proved in Lean 4 about the executable model of XdlEncoder/Xdl::write/Xdl::read (lean/AslModel/Xdl.lean) and the decoder model of C06, "
               "for every Var tree with 32-bit ints, NUL-free strings/keys (any other bytes: control characters, quotes, backslashes, '/', 0x7f, "
